@@ -359,6 +359,12 @@ Theorem C09_bytes_dead_handle_rejected : forall s h,
   /\ (forall i j, b_step s (BSwap h i j) = (s, BErr)).
 Proof. exact b_dead_handle_rejected_lemma. Qed.
 
+(* closing a byte-buffer handle through another module (fs.close, net.close) does not touch the buffer
+   (before a4f58c0 both took the resource out of the table before looking at its kind) *)
+Theorem C09_foreign_close_harmless : forall s h,
+  b_step s (BFsClose h) = (s, BErr) /\ fst (b_step s (BNetClose h)) = s.
+Proof. exact foreign_close_harmless_lemma. Qed.
+
 (* negative offsets, lengths, indices and sizes are errors that change nothing, for every operation *)
 Theorem C09_bytes_negative_operand_rejected : forall s h,
   (forall w k be off, (off < 0)%Z -> b_step s (BRead w k be h off) = (s, BErr))
